@@ -74,7 +74,8 @@ def main():
             print(log[-3000:])
             print("INTERNAL: models/driver do not build", file=sys.stderr)
             return 2
-        ok, log = core.build(["Anytree.Props.%s" % pid])
+        modules = getattr(mod, "MODULES", ["Anytree.Props.%s" % pid])
+        ok, log = core.build(modules)
         if not ok:
             bad = [l for l in log.splitlines() if l.startswith("error")]
             problems.append("theorem file Anytree/Props/%s.lean no longer checks: %s" % (pid, "; ".join(bad[:5])))
@@ -92,7 +93,7 @@ def main():
     if forbidden:
         problems.append("forbidden constructs in Lean sources: %s" % "; ".join(forbidden[:5]))
     if props_built and thm_names:
-        res, alog = core.audit(pid, thm_names)
+        res, alog = core.audit(pid, thm_names, getattr(mod, "MODULES", None))
         for n in thm_names:
             if n not in res:
                 problems.append("theorem %s missing from audit output" % n)
@@ -105,6 +106,18 @@ def main():
             notes.append(alog[-1500:])
     if forbidden:
         discharged = 0
+    # thorough tier: the independent re-checker replays the compiled modules of this property
+    if args.tier == "thorough" and props_built and thm_names:
+        mods = []
+        for sub in ("Model", "Spec", "Lemmas"):
+            d = os.path.join(core.LEAN, "Anytree", sub)
+            mods += ["Anytree.%s.%s" % (sub, f[:-5]) for f in sorted(os.listdir(d)) if f.endswith(".lean")]
+        mods += getattr(mod, "MODULES", ["Anytree.Props.%s" % pid])
+        rc, out = core.sh(["lake", "env", "leanchecker"] + mods, cwd=core.LEAN, timeout=3000)
+        if rc != 0:
+            problems.append("leanchecker rejects the compiled modules: %s" % out[-500:])
+        else:
+            notes.append("leanchecker replayed %d modules: ok" % len(mods))
 
     # 4. cases
     known = [k for k in load_known() if k["property"] == pid]
